@@ -1,5 +1,6 @@
 import TinsModel.Ownership.Spec
 import Driver.Util
+import Driver.C12Opt
 /- line-protocol driver for property C12 (ownership): model mode prints the forest of the pointer model exactly as
    harness/c12_ownership.cpp prints the forest of the real objects; spec mode checks the forest the implementation
    printed against the chain-level specification. -/
@@ -59,6 +60,7 @@ structure MState where
   st : State := {}
   ids : List (Addr × Nat) := []      -- display identities of the reachable layers
   nextId : Nat := 0
+  pool : Tins.OptStore.Pool := {}    -- the storage-level PDUOption model (lines of harness/c12_option.cpp)
 
 /-- the layers reachable from a handle by `->inner_pdu()` -/
 def chainNodes (h : Heap) : Nat → Option Addr → List (Addr × Node)
@@ -113,6 +115,10 @@ def stepAssignRaw (m : MState) (a b : Ref) : MState × String :=
   | _, _ => showForest "illformed" m
 
 def step (m : MState) (line : String) : MState × String :=
+  if C12Opt.isStorageLine (words line) then
+    let (p, out) := C12Opt.step m.pool line
+    ({ m with pool := p }, out)
+  else
   match words line with
   | ["assignraw", a, d, b, e] =>
     match nat? a, nat? d, nat? b, nat? e with
@@ -141,6 +147,7 @@ structure OState where
   prev : AState := {}
   maxId : Nat := 0          -- identities below this have been seen (fresh ones must not be)
   started : Bool := false
+  opt : C12Opt.OState := {}
 
 structure PNode where
   id : Nat
@@ -199,6 +206,10 @@ def nodup (l : List Nat) : Bool :=
   | x :: r => !(r.contains x) && nodup r
 
 def specStep (o : OState) (line : String) : OState × String :=
+  if C12Opt.isStorageLine (words ((line.splitOn " ||| ").headD "")) then
+    let (p, out) := C12Opt.specStep o.opt line
+    ({ o with opt := p }, out)
+  else
   match line.trimAscii.toString.splitOn " ||| " with
   | [opS, out] =>
     match parseOp (words opS) with
